@@ -26,6 +26,8 @@ func checkC17(c *Check, a *Anchors) {
 	writerSerialised(c, a)
 	groupDropsOnlyEmpty(c, a)
 	noDynamicFormat(c, a, "no-dynamic-format")
+	c17StdioIdentity(c, a)
+	c17WriteReportsFullCount(c, a)
 }
 
 // writesTo: the ssa call writes to the value loaded from field `field` of type typ (as receiver of Write or as first argument of a writer helper).
@@ -506,4 +508,92 @@ func handsStreamOn(c *Check, info *types.Info, call *ast.CallExpr) bool {
 	}
 	d := c.P.DeclOf(fn)
 	return d != nil && d.Pkg.PkgPath == PkgOutput
+}
+
+// c17StdioIdentity: what the task hands to execext as stdout / stderr is what the interpreter (and through it os/exec) gets.
+func c17StdioIdentity(c *Check, a *Anchors) {
+	c.Rule("stdio-identity-preserved", "execext.RunCommand hands the interpreter exactly the Stdout and Stderr values of its options (interp.StdIO(…, opts.Stdout, opts.Stderr), directly or through a variable assigned from the field): the output wrappers return the SAME writer for both streams so that os/exec gives an external process one pipe for both and the relative order of its stdout and stderr bytes is kept; wrapping the two separately makes them two pipes drained by two goroutines")
+	var rc *FuncBody
+	if fn, ok := a.RunCommandObj.(*types.Func); ok {
+		rc = c.P.DeclOf(fn)
+	}
+	if rc == nil {
+		c.Errorf("stdio-identity-preserved: execext.RunCommand not found")
+		return
+	}
+	c.Fn(rc)
+	info := rc.Info()
+	n := 0
+	for _, call := range callsIn(rc, true) {
+		if !isFunc(callee(info, call), "mvdan.cc/sh/v3/interp", "", "StdIO") || len(call.Args) != 3 {
+			continue
+		}
+		n++
+		for i, want := range []string{"", "Stdout", "Stderr"} {
+			if want == "" {
+				continue
+			}
+			e := ast.Unparen(call.Args[i])
+			if v := varOf(info, e); v != nil && !v.IsField() {
+				if d := singleDef(info, rc.Body, v); d != nil {
+					e = ast.Unparen(d)
+				}
+			}
+			sel, ok := e.(*ast.SelectorExpr)
+			okField := ok && sel.Sel.Name == want && fieldSel(info, sel, PkgExecext, "RunCommandOptions", want)
+			c.Decide(okField, "stdio-identity-preserved", "interp.StdIO "+want+"@"+fnDisplay(rc), call.Args[i].Pos(), "the options' "+want+" is handed on as it is",
+				"the interpreter is given `"+exprStr(call.Args[i])+"` as "+want+" instead of the options' own "+want+": a per-stream wrapper makes stdout and stderr two different values, os/exec then uses two pipes and two copier goroutines, and the bytes an external command wrote to the two streams reach the group / prefix writer in scheduler-dependent order")
+		}
+	}
+	c.Floor("stdio-identity-preserved", n, 1)
+}
+
+// c17WriteReportsFullCount: io.Writer contract of Task's own writers.
+func c17WriteReportsFullCount(c *Check, a *Anchors) {
+	c.Rule("write-reports-full-count", "a Write method of Task's output writers that reports `len(p)` never re-assigns p: a success result of len(p) after `p = p[k:]` is short by k with a nil error, which io.Copy (os/exec's stream copier) turns into io.ErrShortWrite — the rest of the command's output is dropped and the command is killed by SIGPIPE")
+	n := 0
+	for _, fb := range c.P.Bodies() {
+		if fb.Decl == nil || fb.Decl.Name.Name != "Write" || fb.Decl.Recv == nil || !strings.HasPrefix(fb.Pkg.PkgPath, Mod) || bceSkipPkgs[fb.Pkg.PkgPath] {
+			continue
+		}
+		if fb.Type.Params.NumFields() != 1 || fb.Type.Results == nil || fb.Type.Results.NumFields() != 2 || len(fb.Type.Params.List[0].Names) != 1 {
+			continue
+		}
+		info := fb.Info()
+		p, _ := info.Defs[fb.Type.Params.List[0].Names[0]].(*types.Var)
+		if p == nil || types.TypeString(p.Type(), nil) != "[]byte" {
+			continue
+		}
+		n++
+		c.Fn(fb)
+		var reassigned ast.Node
+		inspectDeep(fb.Body, func(nd ast.Node) bool {
+			if as, ok := nd.(*ast.AssignStmt); ok {
+				for _, l := range as.Lhs {
+					if varOf(info, l) == p && as.Tok != token.DEFINE {
+						reassigned = as
+					}
+				}
+			}
+			return true
+		})
+		usesLen := false
+		for _, r := range returnsOf(fb.Body) {
+			if len(r.Results) == 2 {
+				ast.Inspect(r.Results[0], func(m ast.Node) bool {
+					if call, ok := m.(*ast.CallExpr); ok && isBuiltin(info, call, "len") && len(call.Args) == 1 && varOf(info, call.Args[0]) == p {
+						usesLen = true
+					}
+					return true
+				})
+			}
+		}
+		pos := fb.Decl.Pos()
+		if reassigned != nil {
+			pos = reassigned.Pos()
+		}
+		c.Decide(!(reassigned != nil && usesLen), "write-reports-full-count", "Write@"+fnDisplay(fb), pos, "the byte count reported is that of the slice the caller passed",
+			fnDisplay(fb)+" re-assigns its parameter and then reports len of it: the count is short although every byte was consumed, io.Copy stops with ErrShortWrite and the remaining output of the command is lost")
+	}
+	c.Floor("write-reports-full-count", n, 2)
 }
